@@ -11,7 +11,7 @@ CASE_TYPE = "C39_case"
 HARNESS = "c39"
 KNOWN = {1: "C39-int-from-hashed-type", 2: "C39-nested-types-unchecked",
          3: "C39-nested-appendable-dheader-ignored", 4: "C39-member-id-u16",
-         5: "C39-todo-type-identifier"}
+         5: "C39-todo-type-identifier", 6: "C39-optional-mismatch"}
 RULE = ("one `ev` case = a reader type T1 and a writer type T2 built at run time (DynamicTypeBuilderFactory), the "
         "real CompleteTypeObject::from + is_assignable_from_w_type_consistency decision for (T1 := T2) under a "
         "TypeConsistencyEnforcementQosPolicy, a value serialized by the real serializer with T2 and deserialized by the "
